@@ -60,14 +60,14 @@ Definition accepted (l : list N) (ord : list N) : list N := filter (fun x => mem
 Definition gen_protocol (c : ctx) (pord : list N) (g : gen) : list event :=
   let gord := accepted (gfilter g) pord in
   let vis := visible_namers c g in
-  map (EvFilter (gname g)) pord ++
+  map (EvFilter (gname g) pord) pord ++
   [EvNamers (gname g) gord; EvVars (gname g) vis; EvConsts (gname g) vis; EvInit (gname g) vis gord] ++
   map (EvType (gname g)) gord ++
   [EvFinalize (gname g); EvImports (gname g)].
 
 Definition target_protocol (c : ctx) (t : target) : list event :=
   let pord := accepted (tfilter t) (order c) in
-  map EvTFilter (order c) ++ flat_map (gen_protocol c pord) (tgens t).
+  map (EvTFilter (order c)) (order c) ++ flat_map (gen_protocol c pord) (tgens t).
 
 (* executeBody on the buffer *)
 Lemma exec_body_ok g vis ord body evs b :
